@@ -109,7 +109,8 @@ def universe(ops):
         for i, t in enumerate(w[:-1]):
             if t == "surface" and w[i + 1].isdigit():
                 smax = max(smax, int(w[i + 1]))
-        if len(w) == 3 and w[0] in ("tt", "ttpost") and w[2].isdigit() and int(w[2]) <= MAXK:
+        if len(w) == 3 and w[0] in ("tt", "ttpost", "ttinfix") and w[2].isdigit() \
+                and int(w[2]) <= MAXK:
             kmax = max(kmax, int(w[2]))
     if smax < MAXK:
         return ("ex", max(smax + 1, kmax, 1))
@@ -545,12 +546,40 @@ class View:
 
     def query(self, name, w, out, op):
         try:
-            n = int(w[1]) if name != "logic" else 0
+            n = int(w[1]) if name not in ("logic", "infixlogic") else 0
         except (ValueError, IndexError):
             return
-        if name != "logic" and n >= len(self.nodes):
+        if name not in ("logic", "infixlogic") and n >= len(self.nodes):
             return
-        if name in ("tt", "ttpost"):
+        if name == "ttinfix":
+            # infix encoding of the node (harness encoder, mirrors the model's infixOf) evaluated
+            # by the REAL InfixEvaluator; `undefined` = node not expressible (negated join, ...)
+            if out == "undefined":
+                self.infix_undefined = getattr(self, "infix_undefined", 0) + 1
+                return
+            k = int(w[2])
+            want, full = self.other_table(n, k)
+            got = tt_int(out.split()[1]) if out.startswith("tt ") else None
+            self.cmp += 1
+            self.infix_defined = getattr(self, "infix_defined", 0) + 1
+            if got != want:
+                self.fail("infix-eval", f"`{op}`: infix encoding evaluated by InfixEvaluator "
+                          "differs from the SenseEvaluator table of the same node")
+        elif name == "infixof":
+            return
+        elif name == "infixlogic":
+            m = re.match(r"val ([TF])$", out)
+            if not m:
+                self.fail("logic-format", f"`{op}` answered {out[:80]}")
+                return
+            toks = w[1:w.index(";")]
+            bits = int(w[-1], 16)
+            want = infix_ref(toks, lambda f: (bits >> f) & 1)
+            self.cmp += 1
+            if want is None or (m.group(1) == "T") != bool(want):
+                self.fail("infix-logic-eval", f"`{op}`: InfixEvaluator = {m.group(1)}, reference "
+                          f"evaluation = {want}")
+        elif name in ("tt", "ttpost"):
             k = int(w[2])
             want, full = self.other_table(n, k)
             got = tt_int(out.split()[1]) if out.startswith("tt ") else None
@@ -723,6 +752,79 @@ class Live:
 JOIN_ARITY = [0, 1, 1, 2, 2, 2, 2, 2, 2, 2, 3, 3, 3, 3, 3, 4, 4, 4, 5, 5, 6]
 
 
+def infix_ref(toks, val):
+    """reference value of an explicit-infix expression of grammar G (None if not in G):
+    E ::= A | A (| A)+ | A (& A)+ ; A ::= face | ~ face | * | ( E )"""
+    pos = [0]
+
+    def atom():
+        if pos[0] >= len(toks):
+            return None
+        t = toks[pos[0]]
+        if t.isdigit():
+            pos[0] += 1
+            return bool(val(int(t)))
+        if t == "*":
+            pos[0] += 1
+            return True
+        if t == "~":
+            if pos[0] + 1 >= len(toks) or not toks[pos[0] + 1].isdigit():
+                return None
+            pos[0] += 2
+            return not val(int(toks[pos[0] - 1]))
+        if t == "(":
+            pos[0] += 1
+            r = chain()
+            if r is None or pos[0] >= len(toks) or toks[pos[0]] != ")":
+                return None
+            pos[0] += 1
+            return r
+        return None
+
+    def chain():
+        op, acc = None, None
+        while True:
+            a = atom()
+            if a is None:
+                return None
+            acc = a if acc is None else ((acc and a) if op == "&" else (acc or a))
+            if pos[0] < len(toks) and toks[pos[0]] in ("&", "|") and op in (None, toks[pos[0]]):
+                op = toks[pos[0]]
+                pos[0] += 1
+                continue
+            return acc
+    r = chain()
+    return r if (r is not None and pos[0] == len(toks)) else None
+
+
+def gen_infixlogic(rng):
+    """`infixlogic` op: random expressions of the explicit infix grammar (nesting up to 7, arity
+    up to 5), or arbitrary token lists (mostly rejected as bad-op on both sides)"""
+    def atom(d):
+        r = rng.below(10)
+        if d <= 0 or r < 4:
+            if rng.chance(1, 10):
+                return ["*"]
+            f = str(rng.below(64) if rng.chance(1, 5) else rng.below(6))
+            return ["~", f] if rng.chance(1, 3) else [f]
+        return ["("] + chain(d - 1) + [")"]
+
+    def chain(d):
+        op = rng.choice(["&", "|"])
+        t = atom(d)
+        for _ in range(rng.choice([0, 1, 1, 1, 2, 2, 3, 4])):
+            t += [op] + atom(d)
+        return t
+    if rng.chance(4, 5):
+        toks = chain(rng.range(0, 7))
+        if len(toks) > 120:
+            toks = chain(2)
+    else:
+        toks = [rng.choice(["0", "1", "2", "63", "*", "|", "&", "~", "(", ")", "(", ")"])
+                for _ in range(rng.range(1, 14))]
+    return "infixlogic " + " ".join(toks) + " ; %x" % rng.next()
+
+
 def gen_logic(rng):
     """`logic` op: well-formed expressions up to depth 40, or arbitrary token lists"""
     def lit():
@@ -879,8 +981,8 @@ class ScriptGen:
         rng = self.rng
         n = self.target() if n is None else n
         kind = rng.choice(["postfix", "postfixm", "flag", "flag", "infix", "eval", "evalpost",
-                           "tt", "tt", "ttpost", "ttpost"])
-        if kind in ("tt", "ttpost"):
+                           "tt", "tt", "ttpost", "ttpost", "ttinfix", "ttinfix", "infixof"])
+        if kind in ("tt", "ttpost", "ttinfix"):
             k = self.k if not self.wide else rng.range(0, 8)
             if rng.chance(1, 10):
                 k = rng.below(k + 1)
@@ -970,7 +1072,7 @@ class ScriptGen:
         elif r < 88:
             self.emit("volume %d" % self.target())
         elif r < 91:
-            self.emit(gen_logic(rng))
+            self.emit(gen_logic(rng) if rng.chance(1, 2) else gen_infixlogic(rng))
         elif r < 96:
             self.exchange(False)
         elif self.raw_exchange:
@@ -980,7 +1082,7 @@ class ScriptGen:
             return
         if r >= 40 and v.vols and rng.chance(1, 2):      # look at the volumes after a rewrite
             for vol in v.vols[:4]:
-                self.emit("%s %d %d" % (rng.choice(["tt", "ttpost"]), vol,
+                self.emit("%s %d %d" % (rng.choice(["tt", "ttpost", "ttinfix"]), vol,
                                         self.k if not self.wide else rng.range(0, 8)))
             if rng.chance(1, 2):
                 self.emit("flag %d" % rng.choice(v.vols))
@@ -1054,6 +1156,8 @@ MALFORMED = [
     "flag 99", "flag", "infix x", "infix 99", "eval 2", "eval 2 xyz", "eval 2 12345678901234567",
     "eval 99 0", "evalpost 2", "evalpost 99 0", "tt 2 13", "tt 2", "ttpost 2 13", "tt 99 2",
     "tt 2 1 1", "logic ; 0", "logic 64 ; 0", "logic 1 2 &", "logic 1 2 & ;", "logic 1 ( 2 ) ; 0",
+    "infixlogic ( 0 ; 1", "infixlogic 0 & 1 | 2 ; 0", "infixlogic ~ * ; 0", "infixlogic ; 0",
+    "infixlogic 0 ) ; 0", "infixlogic ( ) ; 0", "infixlogic 64 ; 0", "ttinfix 2 13", "infixof 99",
     "logic 1 ; zz", "logic 1 ; 0 0", "logic 1 ; 12345678901234567", "logic",
 ]
 
@@ -1150,7 +1254,8 @@ CONTRADICTS = {
     "postfix-eval": "postfix_correct + bitstack_refines", "postfix-logic": "postfix_correct",
     "postfix-malformed": "postfix_correct", "postfix-faces": "postfix_correct",
     "calc-max-depth": "calcMaxDepth_eq_peak", "logic-eval": "bitstack_refines",
-    "infix-logic": "infix_correct", "flag-unsound": "flagSimple_sound",
+    "infix-logic": "infix_correct", "infix-eval": "infixOf_correct / infixEvaluator_correct",
+    "infix-logic-eval": "infixEvaluator_correct", "flag-unsound": "flagSimple_sound",
     "flag-negated-alias": "flagSimple_sound (hypothesis noNegatedAlias)",
     "cycle": "TreeInv (children < id)", "structure": "TreeInv",
 }
@@ -1200,7 +1305,7 @@ def _finding_reproduces(key, out):
     if key == "exchange-cycle":
         m = [a for a, b in re.findall(r" (\d+):>(\d+)", out[-1]) if a == b]
         return bool(m), "self-aliased nodes " + ",".join(m) if m else out[-1][:120]
-    if key == "simplify-start-order":
+    if key in ("simplify-start-order", "replace-order"):
         body = out[-1].split("#")[1].split(" vols")[0] if "#" in out[-1] else ""
         bad = []
         for i, txt in re.findall(r" (\d+):(\S+)", body):
@@ -1210,6 +1315,8 @@ def _finding_reproduces(key, out):
     return False, "unknown finding key"
 
 
+NOTE_KEYS = {"simplify-start-order", "replace-order"}
+
 FINDING_TEXT = {
     "flag-negated-alias": "InternalSurfaceFlagger answers `simple` for Negated(Aliased(Joined and)) "
                           "(not an intersection of half-spaces); contradicts the property unless "
@@ -1218,6 +1325,10 @@ FINDING_TEXT = {
     "simplify-start-order": "simplify(tree, start) with unsimplified nodes below `start` leaves a "
                             "node aliased to a higher node (documented topological order broken, "
                             "values preserved; witness simplifyAll_can_break_order)",
+    "replace-order": "two replace_and_simplify calls on an insert-built tree leave a node aliased to "
+                     "a higher node (documented topological order broken by production-API calls "
+                     "only; values preserved: reachable_preserves; witness "
+                     "replace_twice_breaks_order)",
     "exchange-cycle": "CsgTree::exchange with a logically equivalent node makes a node an alias of "
                       "itself through the swap-with-higher-duplicate branch and a stale dedup key "
                       "(theorem exchange_preserves hypothesis SwapSafe; witness "
@@ -1253,7 +1364,10 @@ def run_findings(ctx, exe):
         listed = any(k["key"] == key for k in ctx.known)
         res.append({"file": fn, "key": key, "reproduced": rep, "detail": detail,
                     "model_agrees": om == out, "listed_in_known_findings": listed})
-        if rep:
+        if rep and key in NOTE_KEYS:
+            # ordering-only observations: truth values are preserved, not a C10 violation
+            ctx.notes.append(f"{key}: {FINDING_TEXT.get(key, key)} [replayed, reproduces]")
+        elif rep:
             what = FINDING_TEXT.get(key, key)
             if listed:
                 ctx.violation(key, what, {"ops": ops, "impl": out[-2:], "file": fn})
@@ -1360,7 +1474,9 @@ def run(ctx):
                 if d is not None:
                     S["diverged"].append({"script": s[:d[0] + 1], "impl": d[1][:300],
                                           "model": d[2][:300], "impl_out": oh[i][:d[0] + 1]})
-                S["undefined"] += sum(1 for l in om[i] if l.startswith(UNDEFINED))
+                # `undefined` is a regular answer of the infix encoder ops (node not expressible)
+                S["undefined"] += sum(1 for op_, l in zip(s, om[i]) if l.startswith(UNDEFINED)
+                                      and not op_.startswith(("ttinfix", "infixof")))
             else:
                 S["extra"] += len(s)
             if not valid[i]:
@@ -1375,6 +1491,8 @@ def run(ctx):
                     S["nondet"] += 1
                 v = run_oracle(s, oh[i])
             S["cmp"] += v.cmp
+            S["infix_defined"] = S.get("infix_defined", 0) + getattr(v, "infix_defined", 0)
+            S["infix_undefined"] = S.get("infix_undefined", 0) + getattr(v, "infix_undefined", 0)
             S["max_depth"] = max(S["max_depth"], v.max_depth)
             if v.flag_na:
                 S["flag_na"] += v.flag_na
@@ -1514,6 +1632,8 @@ def run(ctx):
         "cycle_after_explicit_exchange_sample": S["tainted_cycle_sample"],
         "cycles_after_equivalent_exchange_only": S["equiv_cycles"],
         "cycle_after_equivalent_exchange_sample": S["equiv_cycle_sample"],
+        "infix_tables_compared": S.get("infix_defined", 0),
+        "infix_not_expressible": S.get("infix_undefined", 0),
         "flag_negated_alias_cases": S["flag_na"],
         "flag_negated_alias_sample": S["flag_na_sample"],
         "max_logic_depth_seen": S["max_depth"],
